@@ -148,16 +148,26 @@ Definition mon_step (t : table) (m : mon) (s : obs_step) : mon :=
         || mn_watch m4)
        "waiting-without-csv-watch" m4.
 
-Fixpoint mon_run (t : table) (m : mon) (steps : list obs_step) (obs : list (list crash_obs)) : mon :=
+(* OnTxConfirmed is a callback of a confirmation watch; a maker never registers one (Props/C07.v:
+   maker_table_ok), so the environment cannot deliver it to a maker (History.input_allowed).  The
+   scenario generator delivers it anyway (it overwrites OpeningTxHex): monitoring stops there. *)
+Definition unreachable_input (cw : bool) (i : input) : bool :=
+  match i with InTxConfirmed _ _ => negb cw | _ => false end.
+
+Fixpoint mon_run (t : table) (cw : bool) (m : mon) (steps : list obs_step) (obs : list (list crash_obs)) : mon :=
   match steps with
   | [] => m
   | s :: sr =>
       let crs := match obs with c :: _ => c | [] => [] end in
-      mon_run t (mon_step t (fold_left mon_crash crs m) s) sr (tl obs)
+      let cw0 := if is_recover (os_input s) then false else
+                 match crs with [] => cw | _ => false end in
+      if unreachable_input cw0 (os_input s) || existsb (fun cr => unreachable_input false (cr_input cr)) crs then m else
+      mon_run t (cw0 || existsb is_watch_conf (os_effects s))
+              (mon_step t (fold_left mon_crash crs m) s) sr (tl obs)
   end.
 
 Definition c07_diag (c : c07_case) : list string :=
-  mn_diag (mon_run (sc_table (fst c)) mon0 (sc_steps (fst c)) (snd c)).
+  mn_diag (mon_run (sc_table (fst c)) false mon0 (sc_steps (fst c)) (snd c)).
 
 Definition c07_monitor (c : c07_case) : bool :=
   match c07_diag c with [] => true | _ => false end.
